@@ -380,8 +380,14 @@ def mscLoop (cfg : Cfg) (db : DB) (ignore : Bool) : MscAcc → List NewMsg → E
     | .error e => .error e
     | .ok acc1 => mscLoop cfg db ignore acc1 ms
 
-/-- `for mboxID, msgList := range messageForMBox` (Go map order; the mailboxes are independent, so
-    the order is only visible in the order of the queued state updates) -/
+/-- `for mboxID, msgList := range messageForMBox`, visited in the order of the list (the model's
+    representative schedule: insertion order), stopping at the first mailbox whose
+    `AddMessagesToMailbox` fails.  In Go this is a *map* iteration: the order is unspecified.  Each
+    iteration only reads and writes its own mailbox, so the resulting index and whether the update
+    fails do not depend on the order; what does depend on it is the order of the queued state
+    updates and — when several mailboxes would fail with *different* errors — which of these errors
+    is acknowledged (`assignErrs`, `applyMessagesCreatedIn`, `mscPossibleErrs` below; proofs in
+    `Lemmas/ConnMapOrder.lean`, `Theorems/C06.lean` `messagesCreated_map_order`). -/
 def assignAll (cfg : Cfg) : DB → List (Nat × List (Nat × RID)) → Except Err (DB × List Ev)
   | db, [] => .ok (db, [])
   | db, (mb, pairs) :: rest =>
@@ -409,6 +415,51 @@ def applyMessagesCreated (cfg : Cfg) (db : DB) (ignore : Bool) (msgs : List NewM
       match assignAll cfg db1 acc.forMbox with
       | .error e => .fail db e
       | .ok (db2, evs) => .ok db2 evs
+
+/-- the messages of entry `e = (mb, pairs)` of `messageForMBox` that are not yet in mailbox `mb`
+    (the `toAdd` of `assignAll`) -/
+def assignToAdd (db : DB) (e : Nat × List (Nat × RID)) : List (Nat × RID) :=
+  match db.mboxByIid e.1 with
+  | some m => e.2.filter (fun p => !m.has p.1)
+  | none => e.2
+
+/-- the error mailbox entry `(mb, pairs)` raises by itself against `db` (none: it is accepted or has
+    nothing to add) -/
+def assignErrOne (cfg : Cfg) (db : DB) (e : Nat × List (Nat × RID)) : Option Err :=
+  if (assignToAdd db e).isEmpty then none
+  else
+    match addMessages cfg db e.1 (assignToAdd db e) with
+    | .error err => some err
+    | .ok _ => none
+
+/-- the errors the entries of `messageForMBox` raise, each taken by itself against `db` -/
+def assignErrs (cfg : Cfg) (db : DB) (l : List (Nat × List (Nat × RID))) : List Err :=
+  l.filterMap (assignErrOne cfg db)
+
+/-- `applyMessagesCreated` with `messageForMBox` visited in the order `ord` picked (Go map iteration) -/
+def applyMessagesCreatedIn (ord : List (Nat × List (Nat × RID)) → List (Nat × List (Nat × RID)))
+    (cfg : Cfg) (db : DB) (ignore : Bool) (msgs : List NewMsg) : Res :=
+  match mscLoop cfg db ignore { toCreate := [], forMbox := [] } msgs with
+  | .error e => .fail db e
+  | .ok acc =>
+    if acc.toCreate.isEmpty && acc.forMbox.isEmpty then .ok db []
+    else
+      let db1 := { db with msgs := db.msgs ++ acc.toCreate, nextMsg := db.nextMsg + acc.toCreate.length }
+      match assignAll cfg db1 (ord acc.forMbox) with
+      | .error e => .fail db e
+      | .ok (db2, evs) => .ok db2 evs
+
+/-- every error `applyMessagesCreated` may acknowledge under some iteration order of
+    `messageForMBox`: the error of the first loop if it fails (that loop is over a slice: one order),
+    otherwise the errors of the mailboxes that refuse their messages -/
+def mscPossibleErrs (cfg : Cfg) (db : DB) (ignore : Bool) (msgs : List NewMsg) : List Err :=
+  match mscLoop cfg db ignore { toCreate := [], forMbox := [] } msgs with
+  | .error e => [e]
+  | .ok acc =>
+    if acc.toCreate.isEmpty && acc.forMbox.isEmpty then []
+    else
+      let db1 := { db with msgs := db.msgs ++ acc.toCreate, nextMsg := db.nextMsg + acc.toCreate.length }
+      assignErrs cfg db1 acc.forMbox
 
 /-- `applyMessageMailboxesUpdated`: protected id in the list refused; unknown message →
     `ErrNoSuchMessage`; `MailboxTranslateRemoteIDs` (`… IN (…)`: unknown ids are dropped, duplicates
